@@ -89,8 +89,10 @@ def gen_config(rng, profile):
     n = rng.randint(lo, hi)
     keys = alloc_keys(rng, n, cfg, profile.get("prefixy", True))
     counts = {}
-    for (s, l) in keys:
-        kind = rng.choice(profile["kinds"])
+    force = profile.get("force")
+    forced_kinds = {"differ": ["i", "i"], "disjoint": ["vi", "vi"]}.get(force, [])
+    for ki, (s, l) in enumerate(keys):
+        kind = forced_kinds[ki] if ki < len(forced_kinds) else rng.choice(profile["kinds"])
         a = Arg(next_slot(counts, kind), s, l)
         if (cfg.flags & (HF["helpShort"])) and s == "h":
             a.short = None
@@ -196,6 +198,31 @@ def add_rules(rng, cfg, profile):
             if et in ("double", "int", "long") and a.sep == "+":
                 a.sep = ":"
     n = len(cfg.args)
+    force = profile.get("force")
+    if force and n >= 2:
+        a, b = cfg.args[0], cfg.args[1]
+        if force in ("differ", "disjoint"):
+            a.sort = b.sort = a.unique = b.unique = False
+            cfg.constraints.append((force, [a, b], 0))
+        elif force in ("all_of", "any_of", "one_of"):
+            members = rng.sample(cfg.args, rng.randint(2, min(3, n)))
+            if not (force != "all_of" and sum(1 for m in members if m.mandatory) > 1):
+                cfg.constraints.append((force, members, 0))
+        elif force == "requires":
+            if b not in a.requires:
+                a.requires.append(b)
+        elif force == "excludes":
+            if not b.mandatory:
+                a.excludes.append(b)
+        elif force == "mandatory":
+            x = rng.choice([y for y in cfg.args if cat_of(y.slot) != "flag"] or [None])
+            if x is not None:
+                x.mandatory = True
+                if is_container(x.slot):
+                    x.init = []
+                if kind_of(x.slot) in ("oi", "os"):
+                    x.init = None
+        return
     if n >= 2 and profile.get("constraints", True):
         # argument constraints
         for _ in range(rng.choice([0, 0, 1, 1, 2])):
@@ -330,13 +357,15 @@ def gen_valid_line(rng, cfg, tries=60):
         for _k in range(len(order) * len(order) + 1):
             moved = False
             for a in list(order):
+                if a not in order:
+                    continue
                 for b in a.requires:
                     if b in order and order.index(b) < order.index(a):
                         order.remove(b)
                         order.insert(order.index(a) + 1, b)
                         moved = True
                 for b in a.excludes:
-                    if b in order and order.index(b) > order.index(a):
+                    if a in order and b in order and order.index(b) > order.index(a):
                         order.remove(b)
                         if rng.random() < 0.5 and not any(b in x.requires for x in order):
                             order.insert(order.index(a), b)
